@@ -51,7 +51,10 @@ func (s *shardNodeReader) makeReader() (io.Reader, error) {
 		if err != nil {
 			return nil, err
 		}
-		if s.offset >= at+childSize {
+		// skip children that lie entirely before the offset; an empty child
+		// sitting exactly at the offset is still opened so that a full read
+		// (and therefore a preload) requests every block of the file
+		if s.offset >= at+childSize && !(childSize == 0 && s.offset == at) {
 			at += childSize
 			continue
 		}
